@@ -52,6 +52,30 @@ def run (regs : List (List Byte)) (qs : List Queue) : List Op → List Queue
   | [] => qs
   | op :: ops => run regs (step regs qs op) ops
 
+/-- the size an operation asks its Buffer to hold – what `_capacity` has to cover afterwards (`Buffer(capacity)` and
+    `reserve` ask for a capacity directly, every growing method for the size of its result) -/
+def demand (qs : List Queue) : Op → Nat
+  | .ctorCap _ n => n
+  | .ctorData _ d => d.length
+  | .ctorCopy v w => if v = w then 0 else (get qs w).length
+  | .assignBuf _ w => (get qs w).length
+  | .assignData _ d => d.length
+  | .prependData v d => d.length + (get qs v).length
+  | .prependBuf v w => (get qs w).length + (get qs v).length
+  | .prependSub v off len => (((get qs v).drop off).take len).length + (get qs v).length
+  | .appendSub v off len => (get qs v).length + (((get qs v).drop off).take len).length
+  | .assignSub v off len => (((get qs v).drop off).take len).length
+  | .appendData v d => (get qs v).length + d.length
+  | .appendBuf v w => (get qs v).length + (get qs w).length
+  | .resize _ n => n
+  | .reserve v n => max n (get qs v).length
+  | _ => 0
+
+/-- the largest size requested / capacity wished for along a history -/
+def peak (regs : List (List Byte)) : List Queue → List (Op × Nat) → Nat
+  | _, [] => 0
+  | qs, (op, k) :: ops => max (max (demand qs op) k) (peak regs (step regs qs op) ops)
+
 end Spec
 
 /-- a specification byte matches an implementation byte: unspecified matches anything -/
